@@ -1,0 +1,108 @@
+//go:build verif
+
+// Contracts of the Gossip object (gossip.go) and the node listings it uses, for
+// the deductive verifier in /verif (vcgo). Comment-only.
+
+package gossip
+
+//@ nonnil Gossip.state Gossip.config Gossip.metrics Gossip.packetConn Gossip.logger
+//@ immutable Gossip.state Gossip.config Gossip.metrics Gossip.packetConn Gossip.logger
+
+// ---- node listings (C11, C03) ------------------------------------------------------
+// The nodes a gossip round may pick: live = known, remote, neither left nor
+// unreachable; unreachable = known, remote, flagged unreachable.
+
+//@ pure isLive(s *clusterState, id string) bool = id in s.nodes && id != s.localID && !s.nodes[id].Unreachable && !s.nodes[id].Left
+//@ pure isUnreach(s *clusterState, id string) bool = id in s.nodes && id != s.localID && s.nodes[id].Unreachable
+
+//@ contract (*clusterState).LiveNodes
+//@   serves C11 C03 C20
+//@   opt frame true
+//@   ensures[only-live] forall j int {result[j]} :: 0 <= j && j < len(result) ==> isLive(s, result[j].ID) && result[j] == s.nodes[result[j].ID].NodeMetadata
+//@   ensures[all-live] forall id string :: isLive(s, id) ==> (exists j int :: 0 <= j && j < len(result) && result[j].ID == id)
+//@   loop 1 frame nothing
+//@   loop 1 invariant[inv] csInv(s)
+//@   loop 1 invariant[fresh] cap(metadata) == 0 || (fresh(metadata) && loopfresh(metadata))
+//@   loop 1 invariant[only-live] forall j int {metadata[j]} :: 0 <= j && j < len(metadata) ==> isLive(s, metadata[j].ID) && metadata[j] == s.nodes[metadata[j].ID].NodeMetadata
+//@   loop 1 invariant[all-live] forall id string :: id in seen && isLive(s, id) ==> (exists j int :: 0 <= j && j < len(metadata) && metadata[j].ID == id)
+
+//@ contract (*clusterState).UnreachableNodes
+//@   serves C11 C03 C20
+//@   opt frame true
+//@   ensures[only-unreachable] forall j int {result[j]} :: 0 <= j && j < len(result) ==> isUnreach(s, result[j].ID) && result[j] == s.nodes[result[j].ID].NodeMetadata
+//@   ensures[all-unreachable] forall id string :: isUnreach(s, id) ==> (exists j int :: 0 <= j && j < len(result) && result[j].ID == id)
+//@   loop 1 frame nothing
+//@   loop 1 invariant[inv] csInv(s)
+//@   loop 1 invariant[fresh] cap(metadata) == 0 || (fresh(metadata) && loopfresh(metadata))
+//@   loop 1 invariant[only-unreachable] forall j int {metadata[j]} :: 0 <= j && j < len(metadata) ==> isUnreach(s, metadata[j].ID) && metadata[j] == s.nodes[metadata[j].ID].NodeMetadata
+//@   loop 1 invariant[all-unreachable] forall id string :: id in seen && isUnreach(s, id) ==> (exists j int :: 0 <= j && j < len(metadata) && metadata[j].ID == id)
+
+// ---- a gossip round (C03, C13, C20) --------------------------------------------------
+
+//@ ghost gSentLen int
+//@ ghost gSentCount int
+//@ ghost gGossipedWith string
+//@ ghost gGossipCount int
+
+//@ extern-iface net.(PacketConn).WriteTo
+//@   modifies-all $gSentLen $gSentCount
+//@   ghost-set gSentLen = len(p)
+//@   ghost-set gSentCount = old(gSentCount) + 1
+//@ extern net.ResolveUDPAddr
+//@   ensures[addr] result1 == nil ==> result0 != nil
+//@ extern math/rand.Int
+//@   ensures[nonneg] result >= 0
+
+// The digest request: at most MaxPacketSize bytes, ending at a value boundary,
+// and when a digest entry was left out the first one left out did not fit.
+//@ contract (*Gossip).gossip
+//@   serves C13 C03 C20
+//@   ghost-set gGossipedWith = node.ID
+//@   ghost-set gGossipCount = old(gGossipCount) + 1
+//@   ensures[one-packet] result == nil ==> gSentCount == old(gSentCount) + 1
+//@   ensures[fits] result == nil ==> gSentLen <= g.config.MaxPacketSize
+//@   ensures[maximal] result == nil ==> (exists k int :: 1 <= k && k <= wrItems && wrEnd[k] == gSentLen && (k < wrItems ==> wrEnd[k+1] > g.config.MaxPacketSize))
+//@   ensures[at-most-one] gSentCount <= old(gSentCount) + 1
+//@   loop 1 invariant[range] rangeindex < len(digest)
+//@   loop 1 invariant[items] wrItems == rangeindex + 2 && wrLen == wrEnd[wrItems] && wrEnd[1] <= g.config.MaxPacketSize
+//@   loop 1 invariant[accepted] bufLen == wrLen && bufLen <= g.config.MaxPacketSize && 0 <= bufLen
+//@   loop 1 invariant[unsent] gSentCount == old(gSentCount)
+
+//@ contract (*Gossip).gossipRound
+//@   serves C03 C11 C20
+//@   ensures[at-most-two] gGossipCount <= old(gGossipCount) + 2 && gSentCount <= old(gSentCount) + 2
+
+// ---- leaving (C11, C17) ---------------------------------------------------------------
+// The left marker is written to the local state before any peer is told, so
+// every leave message carries it; success is reported only if a peer
+// acknowledged or nobody had to be told.
+
+//@ ghost gLeaveTried int
+//@ ghost gLeaveOK int
+
+//@ contract (*Gossip).leave
+//@   trusted sends the leave header and the local delta over a TCP stream and waits for the acknowledgement (stream code: bufio, net.Dialer)
+//@   requires[marked] g.state.nodes[g.state.localID].Left
+//@   modifies-all $gLeaveTried $gLeaveOK
+//@   ghost-set gLeaveTried = old(gLeaveTried) + 1
+//@   ghost-set gLeaveOK = old(gLeaveOK) + ((result == nil) ? 1 : 0)
+
+//@ contract (*clusterState).Nodes
+//@   serves C11 C20
+//@   opt frame true
+//@   ensures[known] forall j int {result[j]} :: 0 <= j && j < len(result) ==> result[j].ID in s.nodes && result[j] == s.nodes[result[j].ID].NodeMetadata
+//@   loop 1 frame nothing
+//@   loop 1 invariant[inv] csInv(s)
+//@   loop 1 invariant[fresh] cap(metadata) == 0 || (fresh(metadata) && loopfresh(metadata))
+//@   loop 1 invariant[known] forall j int {metadata[j]} :: 0 <= j && j < len(metadata) ==> metadata[j].ID in s.nodes && metadata[j] == s.nodes[metadata[j].ID].NodeMetadata
+
+//@ contract (*Gossip).Leave
+//@   serves C11 C17 C20
+//@   ensures[left] g.state.nodes[g.state.localID].Left
+//@   ensures[told-or-error] result == nil && gLeaveTried > old(gLeaveTried) ==> gLeaveOK > old(gLeaveOK)
+//@   ensures[bounded] gLeaveOK - old(gLeaveOK) <= 4
+//@   loop 1 invariant[range] rangeindex < len(knownNodes)
+//@   loop 1 invariant[left] g.state.nodes[g.state.localID].Left
+//@   loop 1 invariant[count] notified == gLeaveOK - old(gLeaveOK) && 0 <= notified && notified <= 3
+//@   loop 1 invariant[errors] gLeaveTried - old(gLeaveTried) > notified ==> lastLeaveErr != nil
+//@   loop 1 invariant[tried] gLeaveTried >= old(gLeaveTried) && gLeaveTried - old(gLeaveTried) >= notified
